@@ -222,6 +222,8 @@ def feat(s):
         f.add("request_timeout_twice_then_served")
     if behs == ["drop_unserved", "healthy"] and opens == [True, False]:
         f.add("inflight_request_survives_connection_loss")
+    if behs == ["drop_unserved", "drop_unserved", "healthy"] and opens == [True, False, False]:
+        f.add("inflight_request_survives_two_losses")
     if behs == ["refuse", "down"] and opens == [False, True] and s["mrc"] == 2:
         f.add("down_give_up")
     if behs == ["close_abrupt", "down"] and s["mrc"] == 0 and opens == [False, True]:
@@ -234,7 +236,12 @@ def feat(s):
 
 
 QUICK_FEATURES = ["give_up", "stall_then_healthy", "fatal_after_failures", "orderly_close", "abrupt_close_pending_served",
-                  "request_timeout_then_served", "request_timeout_twice_then_served", "inflight_request_survives_connection_loss", "down_give_up", "down_for_ever", "reset_counts", "stall_give_up"]
+                  "request_timeout_then_served", "request_timeout_twice_then_served", "inflight_request_survives_connection_loss",
+                  "inflight_request_survives_two_losses", "down_give_up", "down_for_ever", "reset_counts", "stall_give_up"]
+# features about several consecutive connections that were established and lost again: whether such a connection counts as a
+# success (the retry counter and the delay start again) shows in the give-up decision only when a retry limit is set, so the
+# quick tier runs one script per value of max_retry_count
+PER_MRC_FEATURES = ("request_timeout_twice_then_served", "inflight_request_survives_two_losses")
 
 
 def b_model_check(cfg, need_cases=True, needs=("Choose", "OpenNow")):
@@ -413,6 +420,9 @@ def part_b(prop, T, tier, seed, bins, work, replay=None):
                 if not c:
                     raise ToolError(f"vacuous enumeration: no script with feature {ft}")
                 chosen.append(c[0])
+                if ft in PER_MRC_FEATURES:
+                    for m in sorted({x["mrc"] for x in c} - {c[0]["mrc"]}):
+                        chosen.append([x for x in c if x["mrc"] == m][0])
             chosen.append(reset_timing[0])
             keys = {canon(s) for s in chosen}
             pool = [s for s in cases if canon(s) not in keys and est_seconds(s) <= 4.0 and len(s["steps"]) >= 3]
